@@ -205,6 +205,22 @@ Theorem T02_relay_complete : forall cap pats chunked head evs tail,
 Proof. exact relay_complete. Qed.
 Print Assumptions T02_relay_complete.
 
+(* The transition system and the write list of (modelled) Response.Write — the list the gcases /
+   ecases streams compare with the implementation byte for byte — agree: under the schedule in
+   which every read arrives and is read at once, the LTS leaves the pattern writer and the
+   connection in exactly the state the write list does (same Write calls on the connection). *)
+Theorem T02_relay_refines_response_write : forall cap pats meth r,
+  g_head (go_state meth r) = false ->
+  g_te (go_state meth r) = true \/ (g_cl (go_state meth r) =? -1)%Z = true ->
+  let s := relay_finish cap pats
+             (relay_run cap pats (g_te (go_state meth r)) (relay_init cap pats (go_head_writes meth r))
+                        (seq_schedule (reads_of r)))
+             (go_tail meth r) in
+  let W := wsteps cap pats (0, bw_empty) (go_writes meth r) in
+  rs_last s = fst W /\ rs_bw s = bw_flush (snd W) /\ rs_reads s = reads_of r /\ rs_avail s = [].
+Proof. exact relay_refines_response_write. Qed.
+Print Assumptions T02_relay_refines_response_write.
+
 (* Non-vacuity: a 4-byte buffer, an event arriving in three pieces and read in other pieces,
    then the start of a second event: the first is on the connection, the second still buffered. *)
 Example T02_relay_example :
